@@ -18,6 +18,7 @@ import (
 	"github.com/free5gc/go-upf/internal/verif/flowgen"
 	"github.com/free5gc/go-upf/internal/verif/fullstack"
 	"github.com/free5gc/go-upf/internal/verif/pipeline"
+	"github.com/free5gc/go-upf/internal/verif/rulepath"
 	"github.com/free5gc/go-upf/internal/verif/simkernel"
 	"github.com/free5gc/go-upf/internal/verif/vcore"
 )
@@ -956,6 +957,20 @@ func runPipeline(t vcore.Failer, c pipeline.Case) {
 	vcore.Report(t, v, map[string]any{"pipeline": c})
 }
 
+// runPath follows the IEs of generated session messages through the PFCP session layer down to the netlink requests
+// (package rulepath): an IE of an accepted message must not be lost on the way.
+func runPath(t vcore.Failer, c rulepath.Case) {
+	v, st := rulepath.Run(c, map[string]bool{"PDR": true, "FAR": true})
+	vcore.E.Eval()
+	vcore.E.Class("through_pfcp_layer")
+	if st.SameNumber {
+		vcore.E.Class("through_pfcp_layer:equal_ids_across_kinds")
+		vcore.E.NonTrivial(vcore.JSON(c))
+		vcore.E.Sample("through-pfcp-layer", rulepath.Brief(c))
+	}
+	vcore.Report(t, v, map[string]any{"path": c})
+}
+
 func TestC02(t *testing.T) {
 	defer func() {
 		if drv != nil {
@@ -967,6 +982,7 @@ func TestC02(t *testing.T) {
 		var w struct {
 			Case
 			Pipeline *pipeline.Case `json:"pipeline"`
+			Path     *rulepath.Case `json:"path"`
 		}
 		if err := vcore.LoadReplayCase(f, &w); err != nil {
 			t.Fatalf("replay %s: %v", f, err)
@@ -974,6 +990,11 @@ func TestC02(t *testing.T) {
 		if w.Pipeline != nil {
 			vcore.E.Class("replayed")
 			runPipeline(t, *w.Pipeline)
+			continue
+		}
+		if w.Path != nil {
+			vcore.E.Class("replayed")
+			runPath(t, *w.Path)
 			continue
 		}
 		c := w.Case
@@ -987,6 +1008,9 @@ func TestC02(t *testing.T) {
 	}
 	vcore.Check(t, vcore.N(100, 800), func(rt *rapid.T) {
 		runPipeline(rt, pipeline.Gen(rt))
+	})
+	vcore.Check(t, vcore.N(300, 3000), func(rt *rapid.T) {
+		runPath(rt, rulepath.Gen(rt))
 	})
 	vcore.Check(t, vcore.N(4000, 100000), func(rt *rapid.T) {
 		c := Case{PDR: genPDR(rt)}
